@@ -83,6 +83,17 @@ Proof.
   exfalso. eapply Hn. reflexivity.
 Qed.
 
+(* any sequence (hence any interleaving, at call granularity) of Hash(false) /
+   Hash(true) calls: every call answers what a single call on the freshly
+   decoded message answers *)
+Theorem hash_calls_any_order H calls : forall m,
+  run_hash_calls H calls m = map (fun n => msg_hash H n m) calls.
+Proof.
+  induction calls as [|n t IH]; intros m; [reflexivity|].
+  cbn [run_hash_calls map]. f_equal. rewrite IH. apply map_ext. intros k.
+  apply (after_hash_observables H n m k).
+Qed.
+
 (** *** the cached-source design (seeded mutant C16-r2m2), refuted *)
 Section Cached.
 Variable S : Type.
